@@ -53,6 +53,10 @@ def _drive(script, timeout_s, default_s, conn_s, rng, sel):
     t = UsbTransport.find_adb(default_transport_timeout_s=default_s, **sel)
     tr = []
     written = delivered = 0
+    epoch = [0]
+
+    def bn(i):
+        return (c18.byte_name(i) + 97 * epoch[0]) % 251          # what the device says differs from connection to connection
     exp_ms = int((timeout_s if timeout_s is not None else (default_s if default_s is not None else 10)) * 1000)
     closed = True
 
@@ -71,6 +75,7 @@ def _drive(script, timeout_s, default_s, conn_s, rng, sel):
             if op == 'connect':
                 t.connect(conn_s)
                 closed = False
+                epoch[0] += 1
                 B.inbuf = bytearray()
                 written = delivered = 0
                 tr.append(dict(op='connect', ok=True))
@@ -83,15 +88,17 @@ def _drive(script, timeout_s, default_s, conn_s, rng, sel):
                 tr.append(dict(op='close', ok=True))
                 flush_log()
             elif op == 'pw':
-                B.inbuf += bytes(c18.byte_name(written + i + 1) for i in range(a['m']))
+                B.inbuf += bytes(bn(written + i + 1) for i in range(a['m']))
                 written += a['m']
                 tr.append(dict(op='pw', m=a['m']))
+            elif op == 'partial_timeout':
+                B.partial_timeout = True          # the next backend read times out having received part of the data
             elif op in ('read', 'timeout'):
                 nf0 = len(B.fired)
                 try:
                     got = t.bulk_read(a['n'], timeout_s)
                     flush_log(n=a['n'])
-                    ok = [c18.byte_name(delivered + i + 1) for i in range(len(got))] == list(got)
+                    ok = [bn(delivered + i + 1) for i in range(len(got))] == list(got)
                     tr.append(dict(op='read', n=a['n'], k=len(got), first=delivered + 1, contiguous=bool(ok)))
                     delivered += len(got)
                 except Exception as x:  # noqa
@@ -101,11 +108,12 @@ def _drive(script, timeout_s, default_s, conn_s, rng, sel):
             elif op in ('write', 'hw'):
                 data = bytes(rng.randrange(256) for _ in range(a['m'] if op == 'write' else a['n']))
                 nf0 = len(B.fired)
+                out0 = len(B.out)
                 try:
                     k = t.bulk_write(data, timeout_s)
                     acc = len(B.out)
                     flush_log(data=data)
-                    tr.append(dict(op='wrote', k=k if isinstance(k, int) else -1, accepted=len(B.out) - a.get('before', 0) if False else (k if isinstance(k, int) else -1)))
+                    tr.append(dict(op='wrote', k=k if isinstance(k, int) else -1, accepted=len(B.out) - out0, prefixOk=(bytes(B.out[out0:]) == data[:len(B.out) - out0])))
                 except Exception as x:  # noqa
                     flush_log(data=data)
                     tr.append(dict(op='raised', call='bulk_write', cls=type(x).__name__, expected='UsbWriteFailedError', closed=closed, legit=bool(closed or len(B.fired) > nf0 or B.gone)))
@@ -148,7 +156,7 @@ def two_devices():
                 tr.append(dict(op='close', ok=True))
             else:
                 k = t.bulk_write(b'hello', 1.0)
-                tr.append(dict(op='wrote', k=k if isinstance(k, int) else -1, accepted=5))
+                tr.append(dict(op='wrote', k=k if isinstance(k, int) else -1, accepted=5, prefixOk=True))
         except Exception as x:  # noqa
             if what == 'write':
                 tr.append(dict(op='raised', call='bulk_write', cls=type(x).__name__, expected='UsbWriteFailedError', closed=closed[who], legit=bool(closed[who] or len(B.fired) > nf0)))
@@ -240,6 +248,12 @@ def body(ctx):
         for sys_ in systems:
             traces.append(drive(base, 1.5, None, seed=3, select=sel_, system=sys_))
             meta.append(dict(kind='selection / platform', script=base, device_selected_by=sel_, platform=sys_))
+    # large writes (several maximum-size transfers' worth) with short transfers; a read that timed out with part of the data, then a new connection
+    big = [dict(op='connect'), dict(op='write', m=40000), dict(op='write', m=16384), dict(op='write', m=16385), dict(op='write', m=70000), dict(op='pw', m=5), dict(op='partial_timeout'),
+           dict(op='read', n=5), dict(op='close'), dict(op='connect'), dict(op='pw', m=4), dict(op='read', n=4), dict(op='write', m=33000)]
+    for sd in range(6):
+        traces.append(drive(big, 1.0, None, short=True, seed=100 + sd))
+        meta.append(dict(kind='large writes with short transfers; partial data of a timed-out read; reconnect', script=big, seed=100 + sd))
     for tr_ in two_devices():
         traces.append(tr_)
         meta.append(dict(kind='two devices with the same serial number, one transport each'))
